@@ -261,4 +261,6 @@ def check(ctx, R):
     R.run("C18.c", wire_rules.c18_c, ctx)
     R.run("C18.d", rule_d, ctx)
     R.run("C18.e", rule_e, ctx)
+    from . import c02 as _c02
+    R.run("C18.f", lambda R, c: _c02.rule_f(R, c, "C18.f"), ctx)
     return {}
